@@ -278,6 +278,14 @@ class ResultFlow:
                 ty = None
                 if a0.kind in ("copy", "move") and a0.place.is_local():
                     ty = self.body.local_ty(a0.place.local)
+                if sh == "Iterator::flatten" and ty and not is_result_ty(ty):
+                    # flattening an iterator whose *items* are Results iterates each Result (Ok -> one item, Err -> none):
+                    # every Err is dropped silently
+                    import re as _re
+                    if _re.search(r"(IntoIter|Iter|IterMut|Drain|JoinAll|Flatten)<(?:'[a-z_]+, )?(?:std|core)::result::Result<", ty) and \
+                            ("error::VfsError" in ty or "io::Error" in ty):
+                        out.append((b.idx, "Iterator::flatten over Results", self.tr.operand(a0), t.line))
+                    continue
                 if sh in ("IntoIterator::into_iter", "Iterator::flatten", "Iterator::filter_map"):
                     if not (ty and is_result_ty(ty)):
                         # function items used as values are handled by fnitem_discards
